@@ -978,6 +978,9 @@ def run_property(prop, tier, seed):
     elif prop == "C12":
         names = subjects_where(cat, lambda e: e["shape"]["k"] in ("cip", "columns"))
         region_stage(out, "dense", prop, names, 2, 4 if q else 5, 1, 4 if q else 5, ["push", "clear", "merge"])
+        # offset sequences beyond u32::MAX: the ICMC histories over a monotone alphabet (a 2^31 stride past 2^32, a value
+        # that breaks it, its next multiple) read as item lengths of ConsecutiveIndexPairs over a zero-sized payload
+        ic_stage(out, "offsets-through-pairs", prop, ["opt", "list", "vec"], "mono", 6 if q else 7, 0, extend=False)
         contract_trace_stage(out, ["C12"], q, seed, subjects=names)
     elif prop == "C13":
         names = subjects_where(cat, lambda e: e["caps"]["get"])
